@@ -116,10 +116,38 @@ class C17(Prop):
             vm = guard(ctx, case if case is not None else _FakeCase(lru), "lru_variations(%r)" % m, lru_variations, m)
             if set(bytes(x) for x in vm) != set(v):
                 self._fail(ctx, case, "closure", "class of %r is %r but expanding its member %r gives %r" % (lru, v, m, vm), lru)
+        # the public entry point, on ONE long-lived index instance: every member in turn, as bytes and as text
+        t = self._shared_traph()
+        for m in v + [lru]:
+            for a in (m, self._text(m)):
+                if a is None:
+                    continue
+                e = guard(ctx, case if case is not None else _FakeCase(lru), "expand_prefix(%r)" % (a,), t.expand_prefix, a)
+                e = [bytes(x) for x in e]
+                if not e or e[0] != m:
+                    self._fail(ctx, case, "first-entry", "expand_prefix(%r) on a long-lived index starts with %r (after expanding other members of its class)" % (a, e[:1]), lru)
+                if len(e) != len(set(e)) or set(e) != set(v):
+                    self._fail(ctx, case, "closure", "expand_prefix(%r) = %r, the class is %r" % (a, e, v), lru)
         sts = stems_of(lru)
         hosts = [s for s in sts if s.startswith(b"h:")]
         nt = len(hosts) >= 2 or any(b"s:http" in s for s in sts[1:])
         return nt
+
+    _T = None
+
+    def _shared_traph(self):
+        if C17._T is None:
+            from ..env import Traph
+            from ..rules import RULES
+            C17._T = Traph(folder=None, default_webentity_creation_rule=RULES["domain"], webentity_creation_rules={})
+        return C17._T
+
+    @staticmethod
+    def _text(m):
+        try:
+            return m.decode("utf-8")
+        except UnicodeDecodeError:
+            return None
 
     def check_on_index(self, ctx, case, lru):
         """fresh in-memory index, default rule 'subdomain' (prefix = scheme+port+all hosts): the page seen first may be under any
